@@ -47,8 +47,11 @@ package mqttproxy
 //   C09.unjustified-reject       rejected although one of the periods arrival .. arrival+floor(timeout/period) had a free permit
 //   C09.reject-status            result rateLimited without a 429 response (or the reverse)
 //   C09.unmatched-url-limited    a request matching no rule was delayed, rejected, answered or consulted a limiter
-//   C09.reload-state-lost        a reload with an unchanged rule created a new limiter for it
-//   C09.reload-stale-limiter     a reload with a changed/new rule did not create a limiter for it
+//   C09.non-matching-rule-applied a request took a permit of the limiter of a rule it does not match
+//   C09.several-rules-applied    more than one limiter was asked / changed state for one request
+//   C09.reload-state-lost        a reload created more limiters than there are rules that are not unchanged
+//   C09.reload-stale-limiter     a reload created fewer limiters than there are rules whose match criteria or
+//                                effective policy values (limit, period, timeout after defaults) are new
 //   C09.mqtt-request-rate        more than requestRate packets admitted in one period
 //   C09.mqtt-bytes-rate          bytes admitted in one period exceed bytesRate by one (largest) packet or more
 //   C09.mqtt-unjustified-reject  packet rejected although request and byte permits of the period were not exhausted
@@ -68,15 +71,55 @@ package mqttproxy
 //     horizon.
 //   * requests are not started on a filter generation while/after its
 //     successor inherits from it (that is property C11's business).
-//   * "unchanged rule" = same methods, same url pattern, same policyRef text
-//     and the same effective policy (name and fields). A rule without its own
-//     policyRef whose spec switches defaultPolicyRef to another policy is a
-//     CHANGED rule (fresh limiter with the new policy's numbers, periods
-//     counted from its creation in the new generation); rules with their own
-//     policyRef are unaffected by such a switch. Renamed policies and
-//     duplicate rules are not generated.
-//   * overlapping rules: the first matching rule in spec order limits the
-//     request (anchor "first matching URL rule").
+//   * "unchanged rule" = same methods, same url criteria, same policyRef text
+//     and the same policy (name and fields): it MUST keep its limiter. A rule
+//     whose match criteria or effective policy values (limit, period, timeout
+//     after the documented defaults) differ from every unclaimed rule of the
+//     previous generation MUST get a limiter of its own (periods counted from
+//     its creation in the new generation). A rule that differs from a
+//     predecessor IN NAMES ONLY (policy renamed, policyRef / defaultPolicyRef
+//     now pointing to another policy with equal values, a default value written
+//     out) may keep the predecessor's limiter or get a fresh one - the
+//     statement is silent: its requests are recorded in a ledger of their own
+//     that is accepted if it holds either alone (fresh limiter, periods from
+//     the reload) or appended to the predecessor's history on the
+//     predecessor's period grid (limiter carried on); both sides of such a
+//     reload are judged together, and a rule that goes through several of
+//     them is accepted if one combination of the choices holds. Duplicate
+//     rules are not generated.
+//     CORRECTION (false alarm found by a soundness test, leg-C09-l4: Inherit
+//     comparing policies by values instead of by name): the first version
+//     demanded a fresh limiter whenever the policy NAME behind a rule changed
+//     and reported C09.reload-stale-limiter for an implementation that keeps
+//     the state across a mere rename; the statement only speaks about the
+//     unchanged rule.
+//   * overlapping rules: the statement does not say which of several matching
+//     rules limits a request, only that exactly the matching ones may. The rule
+//     that was applied is OBSERVED: the harness knows the limiter of every rule
+//     (C09Limiters, pointer identity only) and sees whose state the request's
+//     acquisition changed (C09Peek before the acquisition and at the next clock
+//     read / return, compared for equality only); the request is then judged on
+//     that rule's ledger, which must be a rule it matches, and only one limiter
+//     may be involved. A REJECTED request changes no state: if it matches
+//     several rules it is put on the ledger of each and is in order if the
+//     rejection is justified on one of them.
+//     CORRECTION (false alarm, leg2-C09-l3: "an exact hit wins over prefix and
+//     regex rules"): the first version attributed such a request to the first
+//     matching rule in spec order, which is HEAD's choice, not the statement's.
+//   * timeout horizon, second reading (leg2-C09-l2: horizon measured from the
+//     arrival): every period that starts no later than arrival+timeout may be
+//     reserved, i.e. up to floor((offset in period+timeout)/period) periods
+//     ahead, one more than floor(timeout/period) when the timeout is not a
+//     multiple of the period. Both are accepted: a rejection is flagged only
+//     if the arrival period or one of the next floor(timeout/period) periods
+//     has a free permit by release-time accounting (an implementation with the
+//     wider horizon rejects less, never more); waits are bounded by the
+//     timeout itself. CORRECTION (false alarm): the release-time rules never
+//     depended on the horizon, but an ABANDONED (cancelled) request was assumed
+//     to hold its reservation within arrival period + floor(timeout/period);
+//     it may sit one period further (any period starting by arrival+timeout),
+//     so later requests looked mis-served. The assumption now spans the wider
+//     horizon (probe filter.cancelled_request_horizon_from_arrival_one_period_wider).
 //   * a rule's url criteria are matched against the path of the request: the
 //     query string is not part of it, percent-encoded unreserved characters are
 //     equivalent to the plain ones (RFC 3986; encoded reserved characters are
@@ -552,6 +595,15 @@ func c09Gen(rng *sim.Rand, tier string) interface{} {
 				if ns.Default != "" && len(ns.Policies) > 1 {
 					for _, k := range rng.Perm(len(ns.Policies)) {
 						if ns.Policies[k].Name != ns.Default {
+							if rng.Bool(0.3) {
+								// ... whose values equal the old default's: only the name changes
+								for _, q := range ns.Policies {
+									if q.Name == ns.Default {
+										q.Name = ns.Policies[k].Name
+										ns.Policies[k] = q
+									}
+								}
+							}
 							ns.Default = ns.Policies[k].Name
 							break
 						}
@@ -632,15 +684,46 @@ func c09Goid() uint64 {
 type c09TL struct {
 	nows []time.Time
 	seqs []uint64
+	// filter mode: the limiters of the request's filter generation, and those
+	// of them whose state an acquisition of this goroutine changed
+	watch     []*librl.RateLimiter
+	consulted []*librl.RateLimiter
 }
 
-func (t *c09TL) reset() { t.nows, t.seqs = t.nows[:0], t.seqs[:0] }
+func (t *c09TL) reset() { t.nows, t.seqs, t.consulted = t.nows[:0], t.seqs[:0], nil }
+
+// c09Pend is an acquisition whose limiter is not identified yet: the state of
+// the watched limiters at the instant of its clock read.
+type c09Pend struct {
+	tl   *c09TL
+	snap [][2]int
+}
 
 type c09Env struct {
 	r    *sim.Run
 	tls  map[uint64]*c09TL
 	seq  uint64
 	base time.Time
+	pend *c09Pend
+}
+
+// resolve finds out which of the watched limiters the pending acquisition
+// changed. It runs before anything else can touch a limiter (every
+// acquisition and creation starts with a clock read) and after Handle returns.
+func (e *c09Env) resolve() {
+	p := e.pend
+	e.pend = nil
+	if p == nil {
+		return
+	}
+	for i, l := range p.tl.watch {
+		if i < len(p.snap) {
+			c, t := librl.C09Peek(l)
+			if [2]int{c, t} != p.snap[i] {
+				p.tl.consulted = append(p.tl.consulted, l)
+			}
+		}
+	}
 }
 
 func (e *c09Env) register() *c09TL {
@@ -650,10 +733,19 @@ func (e *c09Env) register() *c09TL {
 }
 
 func (e *c09Env) observe(t time.Time) {
+	e.resolve()
 	e.seq++
 	if tl := e.tls[c09Goid()]; tl != nil {
 		tl.nows = append(tl.nows, t)
 		tl.seqs = append(tl.seqs, e.seq)
+		if len(tl.watch) > 0 {
+			p := &c09Pend{tl: tl}
+			for _, l := range tl.watch {
+				c, k := librl.C09Peek(l)
+				p.snap = append(p.snap, [2]int{c, k})
+			}
+			e.pend = p
+		}
 	}
 }
 
@@ -674,6 +766,22 @@ type c09Obs struct {
 	rel  time.Time // release instant (admitted)
 	kind int
 	note string
+	amb  *c09Amb
+}
+
+// c09Amb is a rejected request that matches several rules: which rule's
+// limiter refused it is not observable (a refusal changes nothing), so the
+// rejection is in order if it is justified on the ledger of one of them.
+type c09Amb struct {
+	cands      int                 // ledgers it was put on
+	seen       map[*c09Ledger]bool // ledger chains (by their last ledger) that judged it
+	ok         bool                // justified on one of them, under one acceptable reading of that chain
+	class, msg string
+}
+
+type c09AmbRes struct {
+	amb        *c09Amb
+	class, msg string
 }
 
 type c09Ledger struct {
@@ -684,6 +792,14 @@ type c09Ledger struct {
 	start   time.Time
 	obs     []c09Obs
 	kept    []time.Time // instants of reloads that had to keep this ledger
+	// pred: the rule of this ledger came out of a reload in which only names
+	// changed (policy name, policyRef / defaultPolicyRef to an equal-valued
+	// policy): the statement accepts a fresh limiter (this ledger alone,
+	// periods from the reload) as well as the predecessor's limiter carried
+	// on (pred's history followed by this one on pred's period grid).
+	ambRes   []c09AmbRes // filled by evalDry
+	pred     *c09Ledger
+	unjudged bool // the creation instants of that reload differ: not judged
 }
 
 func c09FloorDiv(a, b int64) int64 {
@@ -725,10 +841,135 @@ func (l *c09Ledger) hist(e *c09Env, upto int) string {
 	return b.String()
 }
 
+// c09Verdict collects the first rule a ledger breaks.
+type c09Verdict struct{ class, msg string }
+
+func (v *c09Verdict) Violate(class, format string, a ...interface{}) {
+	if v.class == "" {
+		v.class, v.msg = class, fmt.Sprintf(format, a...)
+	}
+}
+
+func (v *c09Verdict) Violated() bool { return v.class != "" }
+
+// eval checks one ledger against the property statement, reports the first
+// broken rule and returns a signature of the outcome sequence.
+func (l *c09Ledger) eval(e *c09Env, st *c09Stats) string {
+	sig, class, msg := l.evalDry(e, st)
+	if class != "" {
+		e.r.Violate(class, "%s", msg)
+	}
+	l.commitAmb(l)
+	return sig
+}
+
+// commitAmb hands the verdicts on rejections that may belong to several
+// ledgers over to their c09Amb records; id names the chain of ledgers.
+func (l *c09Ledger) commitAmb(id *c09Ledger) {
+	for _, a := range l.ambRes {
+		if a.amb.seen == nil {
+			a.amb.seen = map[*c09Ledger]bool{}
+		}
+		a.amb.seen[id] = true
+		if a.class == "" {
+			a.amb.ok = true
+		} else if a.amb.class == "" {
+			a.amb.class, a.amb.msg = a.class, a.msg
+		}
+	}
+	l.ambRes = nil
+}
+
+// c09EvalChain judges a chain of ledgers L0 <- L1 <- ... (each the successor of
+// the previous one through a reload in which only names changed, see
+// c09Ledger.pred). At every link the implementation may have carried the
+// limiter on or made a fresh one; the chain is in order if for one of these
+// choices every resulting limiter history holds. (The histories of the two
+// sides of a link must be judged together: a request that entered the old
+// generation just before the reload meets the limiter after it.)
+func c09EvalChain(e *c09Env, st *c09Stats, chain []*c09Ledger) string {
+	k := len(chain) - 1
+	for _, l := range chain {
+		if l.unjudged {
+			e.r.Probe("filter.reload_names_only_changed_not_judged")
+			return "unjudged"
+		}
+	}
+	if k == 0 {
+		return chain[0].eval(e, st)
+	}
+	if k > 4 {
+		e.r.Probe("filter.reload_names_only_changed_not_judged")
+		return "unjudged"
+	}
+	var firstClass, firstMsg string
+	// every reading that holds contributes its verdicts on the rejections that
+	// may belong to several rules (such a rejection is in order if one holding
+	// reading of one of its chains justifies it)
+	id := chain[k]
+	okSig := ""
+	for mask := 0; mask < 1<<k; mask++ {
+		use := &c09Stats{}
+		if mask == 0 {
+			use = st
+		}
+		var sig strings.Builder
+		class, msg := "", ""
+		var seg *c09Ledger
+		var segs []*c09Ledger
+		flush := func() {
+			if seg != nil && class == "" {
+				var s string
+				s, class, msg = seg.evalDry(e, use)
+				sig.WriteString(s + ";")
+				segs = append(segs, seg)
+			}
+		}
+		for i, l := range chain {
+			if i > 0 && mask&(1<<(i-1)) != 0 {
+				seg.name += " carried on as " + l.name
+				seg.obs = append(seg.obs, l.obs...)
+				seg.kept = append(seg.kept, l.kept...)
+				continue
+			}
+			flush()
+			seg = &c09Ledger{name: l.name, limit: l.limit, period: l.period, timeout: l.timeout, start: l.start}
+			seg.obs = append(seg.obs, l.obs...)
+			seg.kept = append(seg.kept, l.kept...)
+		}
+		flush()
+		if class == "" {
+			for _, x := range segs {
+				x.commitAmb(id)
+			}
+			if okSig == "" {
+				okSig = fmt.Sprintf("m%d:%s", mask, sig.String())
+				switch {
+				case mask == 0:
+					e.r.Probe("filter.reload_names_only_changed.fresh_limiter_reading_holds")
+				case mask == 1<<k-1:
+					e.r.Probe("filter.reload_names_only_changed.kept_limiter_reading_holds")
+				default:
+					e.r.Probe("filter.reload_names_only_changed.mixed_reading_holds")
+				}
+			}
+		}
+		if mask == 0 {
+			firstClass, firstMsg = class, msg
+		}
+	}
+	if okSig != "" {
+		return okSig
+	}
+	e.r.Violate(firstClass, "after %d reload(s) in which only names changed for this rule, no reading (limiter carried on / fresh limiter at each of them) holds; with fresh limiters: %s", k, firstMsg)
+	return "bad"
+}
+
 // eval checks the ledger's observations against the property statement and
 // returns a signature of the outcome sequence.
-func (l *c09Ledger) eval(e *c09Env, st *c09Stats) string {
-	r := e.r
+func (l *c09Ledger) evalDry(e *c09Env, st *c09Stats) (string, string, string) {
+	r := &c09Verdict{}
+	l.ambRes = nil
 	sort.SliceStable(l.obs, func(i, j int) bool { return l.obs[i].seq < l.obs[j].seq })
 	known := map[int64]int{}
 	type wild struct{ lo, hi int64 }
@@ -767,6 +1008,11 @@ func (l *c09Ledger) eval(e *c09Env, st *c09Stats) string {
 		case c09Rej:
 			st.rejects++
 			fmt.Fprintf(&sig, "R%d,", q0)
+			r := r
+			if o.amb != nil {
+				r = &c09Verdict{}
+				defer func(v *c09Verdict, a *c09Amb) { l.ambRes = append(l.ambRes, c09AmbRes{a, v.class, v.msg}) }(r, o.amb)
+			}
 			if spare {
 				r.Violate("C09.reject-with-spare-permit", "%s rejected at %v although period %d has only %d of %d permits taken\n%s",
 					o.who, o.a.Sub(e.base), q0, cover(q0), l.limit, l.hist(e, i))
@@ -843,10 +1089,17 @@ func (l *c09Ledger) eval(e *c09Env, st *c09Stats) string {
 		default:
 			st.wilds++
 			fmt.Fprintf(&sig, "C%d,", q0)
-			wilds = append(wilds, wild{q0, q0 + H})
+			// the reservation of an abandoned request sits in one of the periods
+			// that start no later than arrival+timeout (the widest horizon that
+			// keeps the wait within the timeout)
+			hw := int64((o.a.Sub(l.start) - time.Duration(q0)*l.period + l.timeout) / l.period)
+			if hw > H {
+				st.wildWide = true
+			}
+			wilds = append(wilds, wild{q0, q0 + hw})
 		}
 	}
-	return sig.String()
+	return sig.String(), r.class, r.msg
 }
 
 type c09Stats struct {
@@ -855,6 +1108,7 @@ type c09Stats struct {
 	unmatched, shadowed, held, acrossReload, keptReload, freshRule bool
 	cancelWait                                                     bool
 	longSpan, hugeIdle, bigLimitFull                               bool
+	wildWide                                                       bool
 }
 
 func (st *c09Stats) probes(r *sim.Run, mode string) {
@@ -875,6 +1129,7 @@ func (st *c09Stats) probes(r *sim.Run, mode string) {
 	p(st.bigLimitFull, "period_fully_used_limit_ge_20")
 	p(st.longSpan, "wait_spans_10plus_periods")
 	p(st.hugeIdle, "idle_gap_1e6_periods")
+	p(st.wildWide, "filter.cancelled_request_horizon_from_arrival_one_period_wider")
 	p(st.unmatched, "filter.unmatched_request")
 	p(st.shadowed, "filter.request_matches_several_rules")
 	p(st.held, "filter.request_held_during_reload")
@@ -1061,6 +1316,8 @@ func c09PolProbes(r *sim.Run, limit int, period, timeout time.Duration) {
 type c09RuleRef struct {
 	rule c09Rule
 	key  string // rule identity + policy content
+	crit string // match criteria only (methods, url criteria)
+	lim  *librl.RateLimiter // identity of the rule's limiter in its filter generation
 	re   *regexp.Regexp
 	led  *c09Ledger
 	pol  c09Pol // effective (documented defaults applied)
@@ -1146,6 +1403,7 @@ func c09RefSpec(s c09Spec) []*c09RuleRef {
 		}
 		seen[id] = true
 		rr.key = fmt.Sprintf("%s|pol=%+v", id, p)
+		rr.crit = fmt.Sprintf("%v|%s|%s|%s|%s", ru.Methods, ru.Kind, ru.Pat, ru.Kind2, ru.Pat2)
 		// documented defaults (doc/reference/filters.md, ratelimiter.Policy)
 		if p.Limit == 0 {
 			p.Limit = 50
@@ -1223,6 +1481,19 @@ type c09Gen_ struct {
 	f     filters.Filter
 	rules []*c09RuleRef
 	n     int
+	lims  []*librl.RateLimiter
+}
+
+// bindLimiters learns the identities of the generation's limiters (spec order).
+func (g *c09Gen_) bindLimiters() bool {
+	g.lims = frl.C09Limiters(g.f)
+	if len(g.lims) != len(g.rules) {
+		return false
+	}
+	for i, rr := range g.rules {
+		rr.lim = g.lims[i]
+	}
+	return true
 }
 
 func c09NewLedger(rr *c09RuleRef, gen, idx int, start time.Time) *c09Ledger {
@@ -1266,6 +1537,11 @@ func c09ExecFilter(e *c09Env, sc *c09Scenario, main *c09TL) {
 		rr.led = c09NewLedger(rr, 0, i, main.nows[i])
 		ledgers = append(ledgers, rr.led)
 	}
+	if !cur.bindLimiters() {
+		r.Violate("C09.other", "the filter has %d limiters for %d url rules", len(cur.lims), len(rules))
+		return
+	}
+	var ambs []*c09Amb
 	r.Eventf("filter init rules=%d @%v", len(rules), r.Now())
 	var hold chan struct{}
 	reloadCount := 0
@@ -1355,11 +1631,14 @@ func c09ExecFilter(e *c09Env, sc *c09Scenario, main *c09TL) {
 					})
 				}
 				tl.reset()
+				tl.watch = gen.lims
 				gen.n++
 				t0 := time.Now()
 				var res string
 				fin := c09Catch(r, who+" Handle", func() { res = gen.f.Handle(ctx) })
 				t1 := time.Now()
+				e.resolve()
+				tl.watch = nil
 				wasCancelled := cancelled
 				gen.n--
 				r.Yield("returned") // possibly woken by a timer: re-establish a reproducible order
@@ -1383,7 +1662,58 @@ func c09ExecFilter(e *c09Env, sc *c09Scenario, main *c09TL) {
 					}
 					continue
 				}
-				o := c09Obs{who: who, a: t0}
+				// which rule was applied? The statement does not say which of several
+				// matching rules limits a request: the limiter whose state the
+				// request's acquisition changed tells it. One rule per request.
+				if len(tl.nows) > 1 || len(tl.consulted) > 1 {
+					r.Violate("C09.several-rules-applied", "%s: %d limiters were asked / %d changed state for one request (matching rules: %d)", who, len(tl.nows), len(tl.consulted), nmatch)
+					return
+				}
+				var amb *c09Amb
+				if len(tl.consulted) == 1 {
+					var hit *c09RuleRef
+					for _, x := range gen.rules {
+						if x.lim == tl.consulted[0] && x.match(op.Method, path) {
+							hit = x
+							break
+						}
+					}
+					if hit == nil {
+						r.Violate("C09.non-matching-rule-applied", "%s took a permit of the limiter of a rule it does not match (matching rules: %d)\nrules: %+v", who, nmatch, sc.Spec.Rules)
+						return
+					}
+					if nmatch > 1 {
+						if hit == rr {
+							r.Probe("filter.several_rules_match.first_in_spec_order_applied")
+						} else {
+							r.Probe("filter.several_rules_match.later_rule_applied")
+						}
+					}
+					rr = hit
+				} else if nmatch > 1 && len(tl.nows) == 1 && res == "rateLimited" {
+					amb = &c09Amb{}
+					ambs = append(ambs, amb)
+					r.Probe("filter.several_rules_match.rejected_judged_on_each_rule")
+				}
+				if nmatch > 1 {
+					for _, x := range gen.rules {
+						if x != gen.rules[0] && x.match(op.Method, path) && ((x.rule.Kind == "exact" && x.rule.Pat == path) || (x.rule.Kind2 == "exact" && x.rule.Pat2 == path)) {
+							first := true
+							for _, y := range gen.rules {
+								if y == x {
+									break
+								}
+								if y.match(op.Method, path) {
+									first = false
+								}
+							}
+							if !first {
+								r.Probe("filter.several_rules_match.exact_hit_is_not_the_first_rule")
+							}
+						}
+					}
+				}
+				o := c09Obs{who: who, a: t0, amb: amb}
 				if len(tl.nows) > 0 {
 					o.a, o.seq = tl.nows[0], tl.seqs[0]
 				} else {
@@ -1423,8 +1753,18 @@ func c09ExecFilter(e *c09Env, sc *c09Scenario, main *c09TL) {
 				default:
 					r.Violate("C09.other", "%s: unexpected filter result %q", who, res)
 				}
-				rr.led.add(o)
-				r.Eventf("%s res=%q arrive=%v return=%v kind=%d", who, res, o.a.Sub(e.base), t1.Sub(e.base), o.kind)
+				if amb != nil && o.kind == c09Rej {
+					for _, x := range gen.rules {
+						if x.match(op.Method, path) {
+							amb.cands++
+							x.led.add(o)
+						}
+					}
+				} else {
+					o.amb = nil
+					rr.led.add(o)
+				}
+				r.Eventf("%s res=%q arrive=%v return=%v kind=%d rule=%s", who, res, o.a.Sub(e.base), t1.Sub(e.base), o.kind, rr.led.name)
 			}
 		})
 	}
@@ -1458,9 +1798,11 @@ func c09ExecFilter(e *c09Env, sc *c09Scenario, main *c09TL) {
 				tl.reset()
 				fin := c09Catch(r, "Inherit", func() { ng.f.Inherit(old.f) })
 				now := time.Now()
-				// reference: which rules are unchanged?
+				// reference: which rules are unchanged (must keep their limiter),
+				// which differ in match criteria or effective policy values from
+				// every unclaimed predecessor (must get a limiter of their own), and
+				// which differ from a predecessor in names only (both accepted)?
 				taken := map[*c09RuleRef]bool{}
-				var fresh []*c09RuleRef
 				for _, nr := range nrules {
 					for _, pr := range old.rules {
 						if !taken[pr] && pr.key == nr.key {
@@ -1471,18 +1813,34 @@ func c09ExecFilter(e *c09Env, sc *c09Scenario, main *c09TL) {
 							break
 						}
 					}
-					if nr.led == nil {
+				}
+				var fresh, either []*c09RuleRef
+				eitherPred := map[*c09RuleRef]*c09RuleRef{}
+				for _, nr := range nrules {
+					if nr.led != nil {
+						continue
+					}
+					for _, pr := range old.rules {
+						if !taken[pr] && pr.crit == nr.crit && pr.pol.Limit == nr.pol.Limit && pr.pol.PeriodUs == nr.pol.PeriodUs && pr.pol.TimeoutUs == nr.pol.TimeoutUs {
+							taken[pr] = true
+							eitherPred[nr] = pr
+							either = append(either, nr)
+							break
+						}
+					}
+					if eitherPred[nr] == nil {
 						fresh = append(fresh, nr)
 					}
 				}
-				r.Eventf("reload %d @%v kept=%d fresh=%d created=%d", ri, r.Now(), len(nrules)-len(fresh), len(fresh), len(tl.nows))
+				nkept := len(nrules) - len(fresh) - len(either)
+				r.Eventf("reload %d @%v kept=%d fresh=%d either=%d created=%d", ri, r.Now(), nkept, len(fresh), len(either), len(tl.nows))
 				if fin {
 					switch {
-					case len(tl.nows) > len(fresh):
-						r.Violate("C09.reload-state-lost", "reload %d at %v: %d rule(s) are unchanged (same match criteria, same policy) and must keep their limiter, %d changed/new; but %d new limiters were created\nold spec rules: %+v\nnew spec: %+v",
-							ri, r.Now(), len(nrules)-len(fresh), len(fresh), len(tl.nows), c09Keys(old.rules), rl.Spec)
+					case len(tl.nows) > len(fresh)+len(either):
+						r.Violate("C09.reload-state-lost", "reload %d at %v: %d rule(s) are unchanged (same match criteria, same policy) and must keep their limiter, %d changed/new, %d changed in names only; but %d new limiters were created\nold spec rules: %+v\nnew spec: %+v",
+							ri, r.Now(), nkept, len(fresh), len(either), len(tl.nows), c09Keys(old.rules), rl.Spec)
 					case len(tl.nows) < len(fresh):
-						r.Violate("C09.reload-stale-limiter", "reload %d at %v: %d rule(s) are new or have a changed policy, but only %d new limiters were created\nold spec rules: %+v\nnew spec: %+v",
+						r.Violate("C09.reload-stale-limiter", "reload %d at %v: %d rule(s) are new or have changed match criteria / policy values, but only %d new limiters were created\nold spec rules: %+v\nnew spec: %+v",
 							ri, r.Now(), len(fresh), len(tl.nows), c09Keys(old.rules), rl.Spec)
 					}
 				}
@@ -1491,10 +1849,26 @@ func c09ExecFilter(e *c09Env, sc *c09Scenario, main *c09TL) {
 					hold = nil
 					return
 				}
+				created := now
+				sameInstant := true
+				for i, t := range tl.nows {
+					if i > 0 && !t.Equal(tl.nows[0]) {
+						sameInstant = false
+					}
+					created = t
+				}
+				if len(either) > 0 {
+					r.Probe("filter.reload_names_only_changed")
+					if len(tl.nows) == len(fresh) {
+						r.Probe("filter.reload_names_only_changed.no_limiter_created")
+					} else if len(tl.nows) == len(fresh)+len(either) {
+						r.Probe("filter.reload_names_only_changed.limiter_created")
+					}
+				}
 				if rl.Spec.Default != curDefault {
 					noRefFresh, ownRefKept := false, false
 					for _, nr := range nrules {
-						if nr.rule.Ref == "" && nr.led == nil {
+						if nr.rule.Ref == "" && nr.led == nil && eitherPred[nr] == nil {
 							noRefFresh = true
 						}
 						if nr.rule.Ref != "" && nr.led != nil {
@@ -1509,10 +1883,50 @@ func c09ExecFilter(e *c09Env, sc *c09Scenario, main *c09TL) {
 					}
 					curDefault = rl.Spec.Default
 				}
+				// creation instants: limiters are created in the order of the
+				// spec's rules. (They differ when the scheduler lets time pass
+				// inside Inherit.)
+				at := map[*c09RuleRef]time.Time{}
+				mapped := true
+				switch {
+				case len(tl.nows) == len(fresh)+len(either):
+					k := 0
+					for _, nr := range nrules {
+						if nr.led == nil {
+							at[nr] = tl.nows[k]
+							k++
+						}
+					}
+				case len(tl.nows) == len(fresh):
+					for i, nr := range fresh {
+						at[nr] = tl.nows[i]
+					}
+					for _, nr := range either {
+						at[nr] = now
+					}
+				default:
+					mapped = sameInstant
+					for _, nr := range append(append([]*c09RuleRef(nil), fresh...), either...) {
+						at[nr] = created
+					}
+				}
 				for i, nr := range fresh {
 					st.freshRule = true
-					nr.led = c09NewLedger(nr, reloadCount, i, tl.nows[i])
+					nr.led = c09NewLedger(nr, reloadCount, i, at[nr])
+					nr.led.unjudged = !mapped // which creation instant belongs to which rule is not observable
 					ledgers = append(ledgers, nr.led)
+				}
+				for i, nr := range either {
+					nr.led = c09NewLedger(nr, reloadCount, len(fresh)+i, at[nr])
+					nr.led.pred = eitherPred[nr].led
+					nr.led.unjudged = !mapped
+					ledgers = append(ledgers, nr.led)
+				}
+				if !ng.bindLimiters() {
+					r.Violate("C09.other", "reload %d: the filter has %d limiters for %d url rules", ri, len(ng.lims), len(nrules))
+					close(hold)
+					hold = nil
+					return
 				}
 				cur = ng
 				old.f.Close()
@@ -1524,11 +1938,24 @@ func c09ExecFilter(e *c09Env, sc *c09Scenario, main *c09TL) {
 	r.WaitTasks()
 	cur.f.Close()
 	var sig strings.Builder
+	hasSucc := map[*c09Ledger]bool{}
+	for _, l := range ledgers {
+		if l.pred != nil {
+			hasSucc[l.pred] = true
+		}
+	}
 	for _, l := range ledgers {
 		if r.Violated() {
 			break
 		}
-		s := l.eval(e, st)
+		if hasSucc[l] {
+			continue // judged with its successor
+		}
+		var chain []*c09Ledger
+		for x := l; x != nil && len(chain) < 8; x = x.pred {
+			chain = append([]*c09Ledger{x}, chain...)
+		}
+		s := c09EvalChain(e, st, chain)
 		fmt.Fprintf(&sig, "[%d/%d/%d:%s]", l.limit, l.period/time.Microsecond, l.timeout/time.Microsecond, s)
 		if l.timeout == 0 {
 			r.Probe("timeout_zero")
@@ -1536,6 +1963,11 @@ func c09ExecFilter(e *c09Env, sc *c09Scenario, main *c09TL) {
 			r.Probe("timeout_below_period")
 		}
 		c09PolProbes(r, l.limit, l.period, l.timeout)
+	}
+	for _, a := range ambs {
+		if !r.Violated() && a.cands > 0 && len(a.seen) == a.cands && !a.ok {
+			r.Violate(a.class, "the request matches %d rules and its rejection is justified on none of their limiters; on the first: %s", a.cands, a.msg)
+		}
 	}
 	st.probes(r, sc.Mode)
 	for _, p := range sc.Spec.Policies {
@@ -1816,14 +2248,16 @@ func TestVerifC09(t *testing.T) {
 			"mode mqttc: pkg/object/mqttproxy Broker.connectionValidation/checkConnectPermission, newClient, Client.processPacket/checkPublishLimit/runPipeline/processPublish/processPingreq/processPuback, closeAndDelSession, Broker.removeClient, getPipelineMap, paho packet codec (Write + ReadPacket)"},
 		Stub: []string{"callers, HTTP requests and their cancellation (harness)", "sync.Mutex -> simsync.Mutex (same semantics + gates)",
 			"ratelimiter.nowFunc wrapped (still time.Now on the virtual clock) to observe the instants the limiter reads", "logger = nop",
+			"two read-only export helpers injected next to the production code: filters/ratelimiter.C09Limiters (the limiter pointer of each url rule) and util/ratelimiter.C09Peek (raw state, compared for equality only) tell which rule's limiter a request used",
 			"mode mqttc: no sockets and no newBroker/handleConn/readLoop/writeLoop - the harness assembles the Broker struct with newBroker's constructor calls, performs handleConn's registration steps and readLoop's exit path with the real functions and hands each decoded packet to Client.processPacket; sessions are made with Session.init (no resend ticker); publish pipeline = recorder that can drop a packet"},
 		Assumptions: []string{
 			"period k of a limiter is [creation+k*period, creation+(k+1)*period)",
 			"timeout horizon = arrival period and the next floor(timeout/period) periods; a rejection while a later period starting within arrival+timeout has a permit is accepted (probe)",
 			"a cancelled waiting request is not a release; its reservation may sit in any period of its horizon",
 			"no request is started on a filter generation while/after its successor inherits from it (C11)",
-			"unchanged rule = same methods, url pattern, policyRef text and same effective policy (name and fields); a switched defaultPolicyRef makes the rules without own policyRef changed rules (fresh limiter, new policy); renamed policies / duplicate rules not generated",
-			"first matching url rule limits a request",
+			"unchanged rule (must keep its limiter) = same methods, url criteria, policyRef text and same policy (name and fields); a rule whose criteria or effective policy values (limit, period, timeout after defaults) differ from every unclaimed predecessor must get its own limiter; a rule that differs from a predecessor in names only (policy name, policyRef/defaultPolicyRef to an equal-valued policy) may keep the limiter or get a fresh one: its ledger is accepted if it holds alone (periods from the reload) or appended to the predecessor's, each side of the reload being judged together with the other; duplicate rules not generated",
+			"which of several matching rules limits a request is observed, not predicted (the limiter whose state the acquisition changed; must belong to a matching rule; exactly one limiter per matched request); a rejected request that matches several rules is in order if the rejection is justified on one of their ledgers",
+			"an abandoned (cancelled) waiting request may hold its reservation in any period that starts no later than its arrival+timeout (horizon measured from the arrival, the widest that keeps waits within the timeout)",
 			"a rule's url criteria are matched against the request path (no query string, percent-decoded; only unreserved characters are generated in encoded form); the criteria of one rule are alternatives (doc: 'the relationship between exact, prefix and regex is OR'); two rules on one pattern that differ in methods are two rules",
 			"mqtt: 'less than one packet' uses the largest packet admitted in the period; a rejection may also be justified by byte overshoot carried from earlier periods",
 			"mqttc: a PUBLISH is admitted iff it reached the publish pipeline (PUBACKs are recorded, not judged); every PUBLISH (any QoS, DUP, RETAIN) is one packet of its wire size against the limiter of its connection; the limiter may charge up to 8 bytes of framing on top of the wire size; PINGREQ/PUBACK take no permit",
